@@ -1654,9 +1654,12 @@ def _compare(ctx, pending, answers):
                 ctx.disagree('L0', case, a, b, f'{kind}: value')
 
 
-def run(ctx):
+def run(ctx, stop_at_first_failure=False):
     import hd_env  # noqa: F401
     reqs, pending = [], []
+
+    def found():
+        return stop_at_first_failure and bool(ctx.failures)
     import glob
     import json
     import os
@@ -1665,17 +1668,23 @@ def run(ctx):
         case = json.load(open(f))
         _run_one(ctx, case, reqs, pending)
     for c in _placement_cases(ctx):
+        if found():
+            return
         _check_doc(ctx, c, reqs, pending)
         ctx.hist('placement', '/'.join(map(str, c['placement'])) + ('' if c['cls'] == 'Comprehensive3DSR' else '*'))
     ctx.exhaustive.append('placements: {reference without evidence, COMPOSITE with evidence, SCOORD3D} x depth 1..4 x parent '
                           '{container, SCOORD, NUM} x 3 document classes')
     for c in _coded_cases(ctx):
+        if found():
+            return
         _check_doc(ctx, c, reqs, pending)
         ctx.hist('coded_placement', '/'.join(map(str, c['coded'])))
     ctx.exhaustive.append('code forms: {scheme version, long code value, long + version, URN code value, URN + version, context group '
                           'attributes} on every coded name, on a CODE value and on a NUM unit and qualifier x depth 1..4 x parent '
                           '{container, NUM, CODE}')
     for c in _option_cases(ctx):
+        if found():
+            return
         _check_doc(ctx, c, reqs, pending)
         ctx.hist('option_case', f'verified={c["option_case"][0]}/observer={c["option_case"][1]}/organization={c["option_case"][2] is not None}'
                                 f'/institution={c["option_case"][3] is not None}')
@@ -1683,12 +1692,20 @@ def run(ctx):
                           'is_complete x is_final x performed procedure codes {none, [], 2} x 3 document classes'
                           + (' (quick tier: classes in turn)' if ctx.tier == 'quick' else ''))
     for idx in range(ctx.n(700, 6000)):
+        if found():
+            return
         _check_doc(ctx, _doc_case(ctx, idx), reqs, pending)
     for idx in range(ctx.n(160, 2500)):
+        if found():
+            return
         _check_raw(ctx, _raw_case(ctx, idx), reqs, pending)
     for idx in range(ctx.n(300, 2500)):
+        if found():
+            return
         _check_ko(ctx, _ko_case(ctx, idx), reqs, pending)
     for idx in range(ctx.n(450, 4000)):
+        if found():
+            return
         _check_seg(ctx, _seg_case(ctx, idx), reqs, pending)
     _real_segmentations(ctx)
     answers = ctx.model(reqs)
@@ -1795,6 +1812,12 @@ def _run_one(ctx, case, reqs, pending):
         _check_ko(ctx, _ko_case(ctx, case['idx']), reqs, pending)
     elif s == 'seg':
         _check_seg(ctx, _seg_case(ctx, case['idx']), reqs, pending)
+
+
+def search(ctx, broken):
+    """failing-input search after a tie broke: the same streams (x10 where they are random), stopped at the first oracle failure -
+    the search is for ONE failing input"""
+    run(ctx, stop_at_first_failure=True)
 
 
 def replay(ctx, case):
